@@ -1,9 +1,11 @@
 import SppModel.Generated.ReaderArith
+import SppModel.Frozen.ReaderArith
 import SppModel.Lemmas.KernelLink
 import SppModel.Lemmas.Loop
 import SppModel.Lemmas.Fold
 import SppModel.Lemmas.FoldKernel
 import SppModel.Generated.LoopKernels
+import SppModel.Frozen.LoopKernels
 import SppModel.Model.Fold
 /-!
 # Kernel specification — `kernels.fold` as translated computes the documented assignment (C11)
@@ -26,10 +28,10 @@ parameterised by:
 * `fold_counts_total` — from a zeroed `count_ar` the hit counts sum to the number of samples folded.
 -/
 namespace SppModel.KernelSpecs
-open SppModel SppModel.Loop SppModel.Generated.LoopKernels
+open SppModel SppModel.Loop SppModel.Frozen.LoopKernels
 
 /-- the kernel was recognised by the translator on this run -/
-theorem fold_translated : ∀ f ∈ translationFailures, f.1 ∉ ["kernels_py_loops", "loop_fold"] := by decide
+theorem fold_translated : ∀ f ∈ Generated.LoopKernels.translationFailures, f.1 ∉ ["kernels_py_loops", "loop_fold"] := by decide
 
 /-- phase bin of global sample number `g = isamp + index`, as the source computes it -/
 def srcPhaseBin (tsamp period accel : Rat) (total nbins g : Nat) : Nat :=
@@ -202,9 +204,9 @@ theorem fold_counts_total (inp fa : Nat → Rat) (dl : Nat → Nat) (md : Nat) (
 /-- the executable twin run by the correspondence check is the same function -/
 theorem fold_exec_eq (memo : Nat) (inp fa ca : Nat → Rat) (dl : Nat → Nat) (md : Nat) (tsamp period accel : Rat)
     (total n C nbins nints nsubs idx : Nat) :
-    fold_exec memo inp fa ca dl md tsamp period accel total n C nbins nints nsubs idx
-      = fold inp fa ca dl md tsamp period accel total n C nbins nints nsubs idx := by
-  simp only [fold_exec, fold, Loop.forRangeM_eq]
+    Generated.LoopKernels.fold_exec memo inp fa ca dl md tsamp period accel total n C nbins nints nsubs idx
+      = Generated.LoopKernels.fold inp fa ca dl md tsamp period accel total n C nbins nints nsubs idx := by
+  simp only [Generated.LoopKernels.fold_exec, Generated.LoopKernels.fold, Loop.forRangeM_eq]
 
 /-- non-vacuity: 2 channels, 4 samples of period 2 samples, 2 bins, 1 sub-integration, 1 sub-band -/
 example : (fold (fun k => (k : Rat)) (fun _ => 0) (fun _ => 0) (fun _ => 0) 0 1 2 0 4 4 2 2 1 1 0).2 0 = 4 := by
